@@ -302,7 +302,7 @@ def obligations(tier):
   H = qualnames(LS._logical_to_mesh_axes, LS.logical_to_mesh_axes,
                 LS._mesh_assignment_free)
   lg = I(0, 2 if quick else 3)
-  ms = I(0, 3 if quick else 6)
+  ms = I(0, 3 if quick else 4)
   return [
       Ob('linen_add_remove', linen_add_remove,
          dict(r=I(0, 3), n0=nm, n1=nm, n2=nm, k=I(-4, 3)), split=('r', 'k'),
